@@ -31,6 +31,10 @@ ASSUMPTIONS = [
     '(reference run on an identical scratch directory); whether that content is the right one is C16/C08',
     'the processing order of glob matches is an input of the model (taken from stdlib glob.glob on the scratch '
     'directory); the set of matches is fixed by construction of the generator',
+    'the `out` option: the model (`planOut`) takes the value of the option as the step sees it after formatting (absent / '
+    "None / '' / a spelling), whether Path(out) is an existing directory (read from the scratch tree by the harness) and "
+    'the number of paths `in` matched (stdlib glob); the working directory is part of the scenario; what a relative '
+    'spelling resolves to is in the link table (os.path.realpath)',
     'single-fault plans (plus the double fault "rename/write fails and os.remove fails too"); creation of missing '
     'out directories for in-place edits, concurrent writers and Windows are outside the modelled domain',
     'same-file-ness: the link table handed to the model (spelling -> entry = os.path.realpath, entry -> inode id = '
@@ -159,12 +163,22 @@ def base_scenarios(quick):
         out.append(mk('direct-dir', [[a, spec_for(step, 2, 'A')], ['outd/keep', {'raw': 'k'}]] + other,
                       {'kind': 'single', 'paths': [a]}, [a], {'kind': 'dir', 'path': 'outd'}))
         if step != 'fileformattoml':
+            # encoding options x in place / out equal to in / out another file (what is written must be in the
+            # OUT encoding on every route; the source is read in the IN encoding)
             for enc in ({'encoding': 'utf-16'}, {'encoding': 'latin-1'}, {'encoding': 'utf-8'},
-                        {'encodingIn': 'utf-8', 'encodingOut': 'utf-16'}):
+                        {'encodingIn': 'utf-8', 'encodingOut': 'utf-16'}, {'encodingIn': 'utf-16', 'encodingOut': 'utf-8'},
+                        {'encodingIn': 'latin-1', 'encodingOut': 'utf-32'},
+                        {'encoding': 'utf-8', 'encodingIn': 'utf-16'}, {'encoding': 'utf-16', 'encodingOut': 'latin-1'}):
                 name = '-'.join(f'{k}={v}' for k, v in enc.items())
                 out.append(mk('enc-' + name, [[a, spec_for(step, 3, 'A')]] + other,
                               {'kind': 'single', 'paths': [a]}, [a], None, enc))
+                if len(enc) > 1:
+                    out.append(mk('encsame-' + name, [[a, spec_for(step, 3, 'A')]] + other,
+                                  {'kind': 'single', 'paths': [a]}, [a], {'kind': 'same', 'path': './' + a}, enc))
+                    out.append(mk('encout-' + name, [[a, spec_for(step, 3, 'A')]] + other,
+                                  {'kind': 'single', 'paths': [a]}, [a], {'kind': 'file', 'path': 'out' + ext}, enc))
         out += alias_scenarios(step, ext)
+        out += outopt_scenarios(step, ext)
     return out
 
 
@@ -231,6 +245,76 @@ def alias_scenarios(step, ext):
                 scn['probe']['out'] = {'COPY': nm('COPY'), 'LNCOPY': nm('COPY'), 'cd': 'cd/' + a}[opat]
         out.append(scn)
     return out
+
+
+# --------------------------------------------------------------------------
+# the `out` option space: absent / None / '' / '{outDir}' -> '' / the directory of in (with and without the
+# trailing separator) / a path equal to in / another directory; the working directory controlled; files with
+# the NAME of the in file in the working directory and in the out directory (bystanders)
+# --------------------------------------------------------------------------
+
+OUT_FORMS = [
+    # name,          out spec (None = key absent),                          in place?
+    ('absent',       None,                                                  True),
+    ('none',         {'kind': 'none'},                                      True),
+    ('empty',        {'kind': 'empty'},                                     True),
+    ('emptyfmt',     {'kind': 'emptyfmt'},                                  True),
+    ('indir-slash',  {'kind': 'dir', 'path': 'conf'},                       True),
+    ('indir',        {'kind': 'dirnoslash', 'path': 'conf'},                True),
+    ('equal-in',     {'kind': 'same', 'path': 'conf/A'},                    True),
+    ('equal-in-rel', {'kind': 'same', 'path': 'conf/A', 'relative': True},  True),
+    ('otherdir-slash', {'kind': 'dir', 'path': 'od'},                       False),
+    ('otherdir',     {'kind': 'dirnoslash', 'path': 'od'},                  False),
+    ('cwd-dot',      {'kind': 'dir', 'path': 'cw', 'relative': True},       False),   # spelled './' from cwd=cw
+]
+CWDS = ['cw', 'conf', '']
+
+
+def outopt_scenarios(step, ext):
+    a, b = 'a' + ext, 'b' + ext
+    by = 'PRODUCTION do not touch {k1} {missing}\n'
+    files = [['conf/' + a, spec_for(step, 3, 'A')], ['conf/other.dat', {'raw': 'unmatched {k1} {missing}\n'}],
+             ['cw/' + a, {'raw': 'cw ' + by}], [a, {'raw': 'root ' + by}], ['od/' + a, {'raw': 'od ' + by}],
+             ['cw/other.dat', {'raw': 'unmatched in cwd'}], ['od/keep', {'raw': 'k'}]]
+    out = []
+
+    def mk(name, ospec, same, cwd, inrel, multi=False):
+        ospec = copy.deepcopy(ospec)
+        if ospec and 'path' in ospec:
+            ospec['path'] = ospec['path'].replace('A', a)
+            ospec.setdefault('relative', False)
+        fl = list(files)
+        inn = {'kind': 'single', 'paths': ['conf/' + a], 'relative': inrel}
+        matched = ['conf/' + a]
+        scn = {'step': step, 'family': 'outopt', 'files': fl, 'dirs': [], 'in': inn, 'out': ospec, 'enc': {},
+               'ctx': CTX, 'cwd': cwd, 'matched': matched, 'modelled': True}
+        tag = f"out={name},cwd={cwd or 'root'},in={'rel' if inrel else 'abs'}"
+        if multi:
+            fl += [['conf/' + b, spec_for(step, 2, 'B')], ['cw/' + b, {'raw': 'cw b ' + by}], [b, {'raw': 'root b ' + by}]]
+            scn['in'] = {'kind': 'glob', 'paths': ['conf/*' + ext], 'relative': inrel}
+            scn['matched'] = ['conf/' + a, 'conf/' + b]
+            scn['layout'] = 'outopt-multi-' + tag
+            return scn
+        scn['layout'] = 'alias-' + tag
+        scn['expect_inplace'] = same
+        scn['probe'] = {'path': 'conf/' + a, 'spec': 'conf/' + a, 'out': None}
+        if not same:
+            scn['probe']['out'] = {'od': 'od/' + a, 'cw': 'cw/' + a}[ospec['path']]
+        return scn
+
+    for name, ospec, same in OUT_FORMS:
+        falsy = ospec is None or ospec['kind'] in I.FALSY_OUT
+        for cwd in (CWDS if falsy else ['cw']):
+            out.append(mk(name, ospec, same, cwd, False))
+        if name in ('empty', 'absent', 'cwd-dot', 'equal-in'):
+            out.append(mk(name, ospec, same, 'cw', True))
+    for name, ospec, same in OUT_FORMS[:4]:
+        out.append(mk(name, ospec, same, 'cw', name == 'emptyfmt', multi=True))
+    # several in files, out one file: Error before anything is opened
+    scn = mk('onefile', {'kind': 'file', 'path': 'res' + ext}, False, 'cw', False, multi=True)
+    out.append(scn)
+    return out
+
 
 
 # --------------------------------------------------------------------------
@@ -317,11 +401,25 @@ def new_content_problem(scn, ref_after):
     generator constructed. None if all good."""
     for src in scn['matched']:
         if not is_inplace(scn, src):
+            # out is another file: it must hold the new content (in the OUT encoding)
+            o = canonical_out_entry(scn, src)
+            if o is not None and o in ref_after:
+                prob = content_problem(scn, src, bytes.fromhex(ref_after[o]), 'a successful write to out (' + o + ')')
+                if prob:
+                    return prob
             continue
         prob = content_problem(scn, src, bytes.fromhex(ref_after.get(src, '')))
         if prob:
             return prob
     return None
+
+
+def canonical_out_entry(scn, src):
+    """The entry a plain (link-free) out names; None when links are involved (the aliasing family has its own
+    monitor)."""
+    if scn.get('links'):
+        return None
+    return I.canonical_out(scn, src)
 
 
 def is_inplace(scn, src):
@@ -400,7 +498,7 @@ def model_request(scn, obs):
                 plan.append([p + 1, 'raise'])
         offset += n_ops(style, k, inplace)
     fs = [[name, data] for name, data in obs['before'].items()]
-    return {'fs': fs, 'jobs': jobs, 'plan': plan, 'cleanup': True, 'links': obs['links']}
+    return {'fs': fs, 'jobs': jobs, 'plan': plan, 'cleanup': True, 'links': obs['links'], 'outopt': obs['outopt']}
 
 
 def canonical_after(obs):
@@ -546,7 +644,8 @@ def run_case(drv, scn):
     rec['model'], rec['impl'] = model, impl
     rec['impl_detail'] = {'outcome': obs['outcome'], 'before': obs['before'], 'order': obs['order']}
     notes = []
-    if not obs['ref']['ok']:
+    rec['counts'].append('outplan:' + str(m.get('outplan')))
+    if not obs['ref']['ok'] and m.get('outplan') != 'toomany':
         notes.append(f"fault-free reference run of the implementation did not succeed: {obs['ref'].get('outcome')}")
     if sorted(obs['order']) != sorted(scn['matched']):
         notes.append(f"glob matched {obs['order']}, generator expected {scn['matched']}")
@@ -603,7 +702,9 @@ def _spelled(path, relative):
 def _spelled_out(scn):
     o = scn.get('out')
     if not o:
-        return 'None'
+        return '<absent>'
+    if o['kind'] in I.FALSY_OUT:
+        return {'none': 'None', 'empty': "''", 'emptyfmt': "'{outDir}' with outDir=''"}[o['kind']]
     rel = o.get('relative', scn['in'].get('relative'))
     return _spelled(o['path'] + ('/' if o['kind'] in ('dir', 'newdir') else ''), rel)
 
@@ -612,20 +713,34 @@ def absorb(res, rec):
     scn = rec['case']
     for c in rec.get('counts', []):
         res.count(c)
+    if rec.get('skipped'):
+        return
     if 'reject' in rec:
         res.count('rejected')
         res.mismatch(scn, {'reject': rec['reject']}, None, 'driver rejected a generated case')
         return
     res.case(scn, nontrivial=bool(scn.get('fault')))
+    if rec.get('timeout'):
+        fault = scn.get('fault') or {}
+        res.violation(scn, f"the step did not return: {rec['timeout']} (a rewrite must end — ok, raising or dying — "
+                           'for the all-or-nothing claim to mean anything)',
+                      signature={'site': 'in_to_out', 'step': scn['step'], 'clauses': 'terminates',
+                                 'fault': f"{fault.get('op', 'none')}/{fault.get('kind', '-')}/{fault.get('via', '-')}"},
+                      impl={'end': 'timeout'})
+        return
     if rec.get('alias'):
         fault = scn.get('fault') or {}
         clauses = sorted({c for c, _ in rec['alias']})
         what = ('out is another name of the in file' if scn['expect_inplace'] else 'out is a different file (control)')
+        if scn.get('family') == 'outopt' and scn['expect_inplace']:
+            what = ("out absent / None / '' or naming the in file or its directory: an in-place edit; cwd="
+                    f"<root>/{scn.get('cwd') or ''} holds an unrelated file with the name of the in file")
         res.violation(
             scn,
             f"aliasing form {scn['layout'][6:]} ({what}; in={_spelled(scn['in']['paths'][0], scn['in'].get('relative'))}, "
             f"out={_spelled_out(scn)}): " + ' | '.join(t for _, t in rec['alias']),
-            signature={'site': 'is_same_file', 'step': scn['step'], 'form': scn['layout'][6:],
+            signature={'site': 'files_in_to_out.out' if scn.get('family') == 'outopt' else 'is_same_file',
+                       'step': scn['step'], 'form': scn['layout'][6:],
                        'clauses': ','.join(clauses),
                        'fault': f"{fault.get('op', 'none')}/{fault.get('kind', '-')}/{fault.get('via', '-')}"},
             impl=rec.get('alias_obs'))
@@ -652,6 +767,62 @@ def absorb(res, rec):
                   'events': rec['impl']['events']})
 
 
+CASE_TIMEOUT = 30
+_timeouts = 0       # per harness process: after 2 the limit drops to 5 s, after 5 the remaining cases are skipped
+
+
+class CaseTimeout(BaseException):
+    """Raised by SIGALRM in the process running a case: not an `Exception`, so no handler of the tree under
+    test can swallow it."""
+
+
+import contextlib
+import signal
+
+
+@contextlib.contextmanager
+def time_limit(sec):
+    def on_alarm(_sig, _frm):
+        raise CaseTimeout(f'no result within {sec} s')
+    try:
+        old = signal.signal(signal.SIGALRM, on_alarm)
+    except ValueError:        # not the main thread: no guard available
+        yield
+        return
+    signal.alarm(sec)
+    try:
+        yield
+    finally:
+        signal.alarm(0)
+        signal.signal(signal.SIGALRM, old)
+
+
+def guarded_case(drv, scn):
+    """run_case with a time limit; whatever comes out of the tree under test that the harness does not
+    classify (a hang, SystemExit, …) becomes a record, never a crash or a hang of the check."""
+    global _timeouts
+    if _timeouts >= 5:
+        return {'case': scn, 'counts': ['skipped-after-timeouts'], 'skipped': True}
+    try:
+        with time_limit(CASE_TIMEOUT if _timeouts < 2 else 5):
+            return run_case(drv, scn)
+    except (common.Infra, KeyboardInterrupt):
+        raise
+    except CaseTimeout as e:
+        _timeouts += 1
+        try:                     # a request may be in flight: start the model driver afresh
+            drv.close()
+            drv.__init__()
+        except Exception:
+            pass
+        return {'case': scn, 'counts': ['case-timeout'], 'timeout': str(e)}
+    except BaseException as e:   # noqa: BLE001
+        import traceback
+        return {'case': scn, 'counts': ['harness-error'], 'model': None, 'impl': None,
+                'mismatch': 'harness error: ' + ''.join(traceback.format_exception_only(type(e), e)).strip()
+                            + ' @ ' + traceback.format_exc()[-600:]}
+
+
 # --------------------------------------------------------------------------
 # sharded execution
 # --------------------------------------------------------------------------
@@ -664,31 +835,12 @@ def _worker(scn):
     if _worker_drv is None:
         common.use_repo()
         _worker_drv = common.Driver()
-    try:
-        return run_case(_worker_drv, scn)
-    except common.Infra:
-        raise
-    except Exception as e:   # harness-side crash on one case: report, do not hide
-        import traceback
-        return {'case': scn, 'counts': ['harness-error'], 'model': None, 'impl': None,
-                'mismatch': 'harness error: ' + ''.join(traceback.format_exception_only(type(e), e)).strip()
-                            + ' @ ' + traceback.format_exc()[-600:]}
+    return guarded_case(_worker_drv, scn)
 
 
 def run_all(env, scns, workers):
     if workers <= 1 or len(scns) < 8:
-        drv = env.driver
-        out = []
-        for s in scns:
-            try:
-                out.append(run_case(drv, s))
-            except common.Infra:
-                raise
-            except Exception as e:
-                import traceback
-                out.append({'case': s, 'counts': ['harness-error'], 'model': None, 'impl': None,
-                            'mismatch': f'harness error: {type(e).__name__}: {e} @ ' + traceback.format_exc()[-600:]})
-        return out
+        return [guarded_case(env.driver, s) for s in scns]
     import multiprocessing as mp
     ctx = mp.get_context('fork')
     with ctx.Pool(workers) as pool:
@@ -712,7 +864,15 @@ def run(env, res):
                 'through a symlink / as out directory), controls: copy, symlink to a copy, same name in another '
                 'directory; in itself a symlink: monitor only) x {no fault, formatting failure, write fault first/last, '
                 'rename fault, death at first write} (+1 random point) in quick, every fault point in thorough; the '
-                'source path is read after every observable operation. non-trivial = a case with a fault')
+                'source path is read after every observable operation. Out-option family: 5 steps x out in {absent, None, '
+                "'', '{outDir}' with outDir='', the directory of in with/without the separator, a path equal to in (absolute / "
+                'relative to cwd), another directory with/without the separator, ./ } x cwd in {a directory holding an unrelated '
+                'file with the NAME of the in file, the directory of in, the root} x in absolute/relative; same-named bystander '
+                'files in cwd, in the root and in the out directory; a glob of two files with every falsy out; several files to '
+                'one out file (Error before anything is opened) - same fault selection as the aliasing family. Encoding family: '
+                '8 combinations of encoding/encodingIn/encodingOut x {no out, out equal to in, out another file}: what is '
+                'written must decode in the OUT encoding on every route. A case that does not return within the time limit is a '
+                'violation (terminates; limit 30 s, after repeated time-outs in one worker 5 s, then the rest is skipped). non-trivial = a case with a fault')
     workers = env.n(8, 14)
     bases = base_scenarios(env.quick)
     # phase 1: every base scenario fault-free (also yields the number of writes per file)
@@ -742,7 +902,7 @@ def run(env, res):
     cases = []
     for b, ks in zip(bases, ks_of):
         pts = fault_points(b, ks)
-        if b['layout'].startswith('alias-'):
+        if b['layout'].startswith('alias-') or b.get('family') == 'outopt':
             # aliasing forms x {formatting failure, write fault, rename fault, death while writing}
             if env.quick:
                 def want(f, k=None):
@@ -757,7 +917,7 @@ def run(env, res):
                 rest = [f for f in pts if not want(f)]
                 env.rng.shuffle(rest)
                 pts = [f for f in pts if want(f)] + rest[:1]
-            if not b['expect_inplace']:
+            if not b.get('expect_inplace', True):
                 pts = [f for f in pts if f['op'] not in ('replace', 'mkTemp')]
         elif env.quick:
             core = b['layout'] in ('single-3', 'list-2', 'same-dotslash', 'glob-3')
@@ -784,4 +944,4 @@ def replay(env, res, payload):
         scn = payload['first_diverging_case'].get('case')
     if scn is None:
         scn = payload
-    absorb(res, run_case(env.driver, scn))
+    absorb(res, guarded_case(env.driver, scn))
